@@ -178,6 +178,80 @@ def cases(draw, route="direct", masked=None, inputs=("wrapped",)):
 
 
 @st.composite
+def seam_cases(draw):
+    """Periodic grids whose mask is connected only through the periodic seam: band masks (a band of
+    columns and/or rows that does not touch the border is removed, so the remaining strips meet only
+    across the last<->first column / row), on thin (1xW, 2xW, Hx1, Hx2), narrow (3xW, Hx3) and regular
+    grids, with a dominant harmonic along the cut axis so the field really wraps."""
+    kind = draw(st.sampled_from(["thin", "thin", "thin", "thin", "narrow", "regular"]))
+    # a unit harmonic with steps <= 0.95*pi spans more than 2*pi (so it must wrap) from 7 samples on
+    long_side = st.integers(8, MAX_SIDE)
+    if kind == "regular":
+        H, W = draw(st.integers(8, 18)), draw(st.integers(8, 18))  # (the other strata go up to 28x28)
+        axes = draw(st.sampled_from(["cols", "rows", "both"]))
+    else:
+        short = draw(st.integers(1, 2)) if kind == "thin" else 3
+        if draw(st.booleans()):
+            H, W, axes = short, draw(long_side), "cols"
+        else:
+            H, W, axes = draw(long_side), short, "rows"
+        if kind == "narrow" and draw(st.booleans()):
+            axes = "both"  # 3 rows: the middle row can be removed too
+    mask = {"t": "band", "invert": False, "keep": "all"}
+    if axes in ("cols", "both"):
+        c0 = draw(st.integers(1, W - 2))
+        mask["cols"] = [c0, draw(st.integers(1, W - 1 - c0))]
+    if axes in ("rows", "both"):
+        r0 = draw(st.integers(1, H - 2))
+        mask["rows"] = [r0, draw(st.integers(1, H - 1 - r0))]
+    mask["holes"] = draw(st.lists(st.tuples(st.integers(0, H - 1), st.integers(0, W - 1)).map(list), max_size=2))
+    # dominant periodic harmonic along the cut axis (or both), then optional periodic extras
+    order = st.sampled_from([1, 1, 1, 2, -1, -1, -1, -2])
+    m = draw(order) if axes in ("cols", "both") else draw(st.integers(-1, 1))
+    n = draw(order) if axes in ("rows", "both") else draw(st.integers(-1, 1))
+    terms = [{"t": "cos", "w": draw(st.sampled_from([-1.0, 1.0])), "m": m, "n": n, "ph": draw(_f(0, 6.2832))}]
+    for _ in range(draw(st.integers(0, 2))):
+        k = draw(st.sampled_from(["band", "gauss", "white", "cos"]))
+        t = {"t": k, "w": draw(_w()) * 0.5}
+        if k == "band":
+            t.update(seed=draw(st.integers(0, 2**31 - 1)), kmax=draw(st.integers(1, 3)), decay=draw(st.sampled_from([0.0, 1.0, 2.0])))
+        elif k == "gauss":
+            t.update(x0=draw(_f(0, 1)), y0=draw(_f(0, 1)), s=draw(_f(0.05, 0.8)), periodic=True)
+        elif k == "white":
+            t.update(seed=draw(st.integers(0, 2**31 - 1)))
+        else:
+            t.update(m=draw(st.integers(-3, 3)), n=draw(st.integers(-3, 3)), ph=draw(_f(0, 6.2832)))
+            if t["m"] == 0 and t["n"] == 0:
+                t["m"] = 1
+        terms.append(t)
+    route = draw(st.sampled_from(["direct", "direct", "direct", "bf"]))
+    case = {
+        "H": H,
+        "W": W,
+        "wrap_around": True,
+        "route": route,
+        "mask": mask,
+        "field": {
+            "terms": terms,
+            "frac": draw(st.sampled_from([0.95, 0.95, 0.9, 0.8]) | _f(0.8, FRAC_MAX)),
+            "offset": draw(st.integers(-31, 31).map(lambda i: i / 10.0)),
+        },
+    }
+    if route == "direct":
+        case["dtype"] = draw(st.sampled_from(["float32", "float32", "float64"]))
+        case["input"] = draw(st.sampled_from(["wrapped", "wrapped", "wrapped", "unwrapped"]))
+        case["outside"] = draw(st.sampled_from(["field", "zero", "noise"]))
+        if case["outside"] == "noise":
+            case["outside_seed"] = draw(st.integers(0, 2**31 - 1))
+    else:
+        case["two_pass"] = draw(st.booleans())
+        case["pass_wrap_kw"] = draw(st.booleans())  # False: the real caller's form (default True)
+        case["bf_extra"] = draw(st.sampled_from(["same", "all", "dilate"]))
+        case["amp_seed"] = draw(st.integers(0, 2**31 - 1))
+    return case
+
+
+@st.composite
 def poisson_cases(draw):
     c = draw(cases(route="direct"))
     c["route"] = "poisson"
@@ -211,9 +285,11 @@ def _build(case):
         has_wrap |= s > 0
     kmax = int(np.max(np.abs(k[inm]))) if inm.any() else 0
     hole = G.has_hole(H, W, mask, wrap)
+    # some region of the mask hangs together only through the periodic border (classification only)
+    seam = bool(wrap and mask is not None and G.components(H, W, mask, False)[1] > ncomp)
     return dict(
         H=H, W=W, wrap=wrap, mask=mask, truth=truth, labels=labels, ncomp=ncomp, wrapped=wrapped,
-        k=k, inm=inm, has_wrap=has_wrap, kspan=kspan, kmax=kmax, hole=hole, nedges=int(a.size),
+        k=k, inm=inm, has_wrap=has_wrap, kspan=kspan, kmax=kmax, hole=hole, seam=seam, nedges=int(a.size),
     )  # fmt: skip
 
 
@@ -229,8 +305,15 @@ def _classes(case, B):
     cl += ["field:" + t for t in sorted({t["t"] for t in case["field"]["terms"]})]
     if B["hole"]:
         cl.append("mask_has_hole")
-    if min(B["H"], B["W"]) <= 2:
-        cl.append("side<=2")
+    thin = min(B["H"], B["W"]) <= 2
+    if thin:
+        cl.append("thin_grid")
+    elif min(B["H"], B["W"]) == 3:
+        cl.append("narrow_grid")
+    if B["seam"]:
+        cl.append("seam_connected_mask")
+        if B["has_wrap"]:
+            cl.append("seam_connected_mask+wrap" + ("+thin_grid" if thin else ""))
     px = B["H"] * B["W"]
     cl.append("pixels:" + ("<=64" if px <= 64 else "65-256" if px <= 256 else "257+"))
     if case["route"] == "direct":
@@ -248,12 +331,13 @@ def _classes(case, B):
 
 def _nontrivial(case, B):
     """A wrap line crosses a connected component (something has to be unwrapped) and, when a mask
-    is given, the mask is not a single simply-connected blob (hole or >= 2 components)."""
+    is given, the mask is not a single simply-connected blob (hole, >= 2 components, or a region
+    that is connected only through the periodic border)."""
     if not B["has_wrap"]:
         return False
     if case["mask"] is None:
         return True
-    return B["hole"] or B["ncomp"] >= 2
+    return B["hole"] or B["ncomp"] >= 2 or B["seam"]
 
 
 # ------------------------------------------------------------------------------------------------
@@ -394,4 +478,5 @@ def search(ctx):
     core.run_given(ctx, "masked", cases("direct", masked=True), body, ctx.n(650, 3000))
     core.run_given(ctx, "fixedpoint", cases("direct", masked=True, inputs=("unwrapped",)), body, ctx.n(300, 1200))
     core.run_given(ctx, "bf", cases("bf"), body, ctx.n(300, 1200))
+    core.run_given(ctx, "seam", seam_cases(), body, ctx.n(260, 1500))
     core.run_given(ctx, "poisson", poisson_cases(), body, ctx.n(100, 400))
